@@ -231,7 +231,7 @@ def run(ctx):
     for _ in range(nm):
         m = gen_model_case(ctx.rng)
         forms[m['form'] + '/' + m['how_T']] = forms.get(m['form'] + '/' + m['how_T'], 0) + 1
-        out.failures.extend(oracle_model(m))
+        out.failures.extend(sc.guarded(oracle_model, m, 'model:hang', 'model'))
     out.evaluations = len(cases) + nm
     out.nontrivial = len(seen)
     out.rule = ('random equation blocks (shared solver generator) weighted towards exogenous specifications (list, tuple, '
